@@ -214,7 +214,8 @@ def rn7(prog, rr):
             rr.finding(f, lp, "Randomizer.randomize", "RN7: an unconstrained field is drawn but not locked afterwards (set_used_rand(False)): its used-as-random flag stays on "
                        "after the call, so a later call that only *references* the field treats it as a solver variable and overwrites it")
     # (b) read-back loop
-    rb = [lp for lp in walk_local(f.node) if isinstance(lp, ast.For) and any(isinstance(n, ast.Call) and call_name(n) == "post_randomize" for n in lp.body and walk_local(lp))]
+    rb = [lp for lp in walk_local(f.node) if isinstance(lp, ast.For)
+          and any(isinstance(n, ast.Call) and call_name(n) == "post_randomize" and recv_text(n) == norm(lp.target) for n in walk_local(lp))]
     rr.require(rb, "read-back loop not found")
     for lp in rb:
         v = norm(lp.target)
@@ -335,6 +336,8 @@ def ft12(prog, rr):
                                "from instance state: a toggle on one instance changes what new instances start with" % name)
     gc = prog.method("FieldCompositeModel", "get_constraint")
     loops = [lp for lp in walk_local(gc.node) if isinstance(lp, ast.For)]
+    # a search written as next(<generator>) / a comprehension iterates its generators' sources
+    loops += [g for n in walk_local(gc.node) if isinstance(n, (ast.GeneratorExp, ast.ListComp)) for g in n.generators]
     rr.inst("FieldCompositeModel.get_constraint iterates %s" % [norm(lp.iter) for lp in loops])
     if not loops or any(norm(lp.iter) != "self.constraint_model_l" for lp in loops):
         rr.finding(gc, gc.node, "FieldCompositeModel.get_constraint", "FT12: a block is looked up by name in %s instead of this object's own constraint_model_l: with a "
